@@ -55,6 +55,9 @@ type knownFinding struct {
 	Match    string `json:"match"` // substring of the violation message
 	Commit   string `json:"commit"`
 	Text     string `json:"text"`
+	// Inputs: values the counterexample's inputs must have (name -> values); a violation of
+	// the same assertion with other inputs is not this finding
+	Inputs map[string][]uint64 `json:"inputs"`
 }
 
 func main() {
@@ -613,9 +616,27 @@ func matchKnown(known []knownFinding, prop string, v sym.Violation) *knownFindin
 		if k.Match != "" && !strings.Contains(v.Msg, k.Match) {
 			continue
 		}
+		if !inputsMatch(k.Inputs, v.Model) {
+			continue
+		}
 		return k
 	}
 	return nil
+}
+
+func inputsMatch(want, got map[string][]uint64) bool {
+	for name, w := range want {
+		g, ok := got[name]
+		if !ok || len(g) != len(w) {
+			return false
+		}
+		for i := range w {
+			if g[i] != w[i] {
+				return false
+			}
+		}
+	}
+	return true
 }
 
 // ---- replay command
